@@ -4,17 +4,22 @@ from __future__ import annotations
 import math
 import struct
 
+import json
+
 from .. import core
 from ..core import Broken, Ctx, Violation
 
 PROP_FILE = "Properties/C16.v"
+CORPUS = core.VERIF / "harness" / "corpus" / "C16"
 
 TRUSTED = [
     "translator/c16.py (get_dtype band chain -> Gen_C16.src_dtype_chain; fails closed on any other shape)",
     "correspondence harness: harness/props/c16.py generators, harness/drivers/c16.py, float.hex() -> (m, e) literals",
     "modelled, not verified: numpy elementwise float64 arithmetic = IEEE-754 round-to-nearest-even (Flocq "
-    "BinarySingleNaN), np.clip = minimum(maximum()), Python int -> float64 conversion is correctly rounded, "
-    "float -> unsigned cast is only defined when the value fits",
+    "BinarySingleNaN), np.clip = minimum(maximum()), np.minimum propagates NaN, np.trunc = round toward zero, "
+    "np.nextafter(x, 0.0) = predecessor, Python int -> float64 conversion is correctly rounded and float/int "
+    "comparison is exact, float32/float16 -> float64 conversion is exact, float -> unsigned cast is only defined "
+    "when the value fits, integer -> integer cast wraps",
 ]
 
 
@@ -50,6 +55,8 @@ RANGES_FIXED = [
     (0.0, 1.0), (0.0, 5.0), (0.0, 3.3), (0.0, 10.0), (0.0, 8.934237255150775), (-5.0, 5.0), (-1.5, 2.25),
     (1.0, 1.0000000000000002), (0.0, 5e-324), (-1e280, 1e280), (0.0, 1e-300), (2.0, 3.0), (0.0, 0.1),
     (-0.1, 0.7), (0.0, 6.0), (0.0, 15.0),
+    # the scaled value overflows to +inf inside the range (finite span): must be clamped, never an undefined cast
+    (0.0, 2.0 ** 1000), (-1e307, 1e307), (-18.66, -17.07),
 ]
 
 
@@ -62,7 +69,8 @@ def gen_range(r):
     if k < 0.9:
         a = r.uniform(-20, 20)
         return (a, a + r.uniform(1e-3, 40))
-    e = r.randrange(-300, 240)  # span * 2^64 stays far below 2^1023: no intermediate overflow
+    # tiny and huge spans; above 2^959 the product span * 2^64 overflows (clamped); the span itself stays finite
+    e = r.randrange(-300, 1021)
     a = r.choice([0.0, -1.0, 1.0]) * r.random() * 2.0 ** e
     return (a, a + r.random() * 2.0 ** e + 2.0 ** (e - 40))
 
@@ -123,16 +131,8 @@ def gen_case(r, kind, bits, rng_v, dense=False, frame=None):
         keep = sorted(set([0, 1, len(xs) - 2, len(xs) - 1] + r.sample(range(len(xs)), 16)))
         xs = [xs[i] for i in keep]
     frame = r.choices(["float64", "float32", "float16"], [14, 5, 1])[0] if frame is None else frame
-    if frame != "float64":
-        # narrow frames: numpy then computes in the frame's own precision. Only settings that are meaningful
-        # in that precision are generated (range ends distinct and far from underflow, no intermediate
-        # overflow): otherwise fall back to a float64 frame.
-        import numpy as np
-        lim = {"float32": (1e-3, 1e30, 64), "float16": (1e-2, 16.0, 11)}[frame]
-        ok = (math.isfinite(span) and lim[0] <= span <= lim[1] and abs(vmin) <= lim[1] and bits <= lim[2]
-              and float(np.dtype(frame).type(vmin)) < float(np.dtype(frame).type(vmax)))
-        if not ok:
-            frame = "float64"
+    # narrow frames (Signal.TYPE_LIST allows float32/float16): the converters work on a binary64 copy, so any
+    # setting is meaningful; the voltages handed to the model are the frame's values converted exactly
     if frame != "float64":
         import numpy as np
         with np.errstate(all="ignore"):
@@ -148,9 +148,19 @@ def gen_case(r, kind, bits, rng_v, dense=False, frame=None):
                 path=r.choice(["model", "func"]), frame=frame)
 
 
+def load_corpus():
+    """Formerly failing inputs (harness/corpus/C16/*.json), run first: a regression is reported with them."""
+    out = []
+    for f in sorted(CORPUS.glob("*.json")):
+        c = json.loads(f.read_text())
+        out.append({k: c[k] for k in ("kind", "bits", "vmin", "vmax", "xs", "path", "frame")})
+    return out
+
+
 def gen_cases(ctx: Ctx, budget: int):
     r = ctx.rng("cases")
-    cases = []
+    cases = load_corpus()
+    ctx.cov["corpus_cases"] = len(cases)
     # every resolution at least once per converter kind (61 widths): the band structure of the dtype
     for bits in range(4, 65):
         cases.append(gen_case(r, "simple", bits, RANGES_FIXED[bits % len(RANGES_FIXED)], frame="float64"))
@@ -199,9 +209,8 @@ def emit_case(c, obs) -> str:
         o = "None"
     xs = core.clist(bf(float.fromhex(h)) for h in c["xs"])
     tw = "None" if "twin" not in obs else f"(Some {core.clist(str(v) for v in obs['twin'])})"
-    ex = core.cbool(c.get("frame", "float64") == "float64")
     return (f"{{| kind := {KIND[c['kind']]}; bits := {c['bits']}; vmin := {bf(float.fromhex(c['vmin']))}; "
-            f"vmax := {bf(float.fromhex(c['vmax']))}; xs := {xs}; observed := {o}; twin := {tw}; exact := {ex} |}}")
+            f"vmax := {bf(float.fromhex(c['vmax']))}; xs := {xs}; observed := {o}; twin := {tw} |}}")
 
 
 def emit_file(pairs) -> str:
@@ -318,9 +327,12 @@ def run(ctx: Ctx):
 
     ctx.trusted += TRUSTED
     ctx.assumptions += [
-        "finite vmin < vmax, 4 <= bits <= 64, NaN voltages excluded (outside the property's quantifier)",
-        "the float->unsigned cast is compared only where it is defined (value fits the type)",
+        "finite vmin < vmax with a finite span vmax - vmin (< 1.8e308), 4 <= bits <= 64, NaN voltages excluded "
+        "(outside the property's quantifier; C16_nan_undefined says what the model does with them)",
+        "the float->unsigned cast is compared only where it is defined (C16_never_wraps proves it is defined for "
+        "every generated setting, so every pixel is compared)",
     ]
+    ctx.max_violation_lines = 8     # one replay per repaired defect (7 fixed findings) when run on an unrepaired tree
     gen = {}
     try:
         gen["Gen_C16.v"] = tr.translate(ctx.repo)
@@ -353,6 +365,7 @@ def run(ctx: Ctx):
                         xs=c["xs"][:5], codes=o.get("codes", [])[:5], n=len(c["xs"])))
     for c, o in viol:
         ctx.violations.append(to_violation(c, o))
+    order_violations(ctx)
     (ctx.build / "mismatches.json").write_text(__import__("json").dumps([dict(case=c, observed=o) for c, o in mism], indent=1))
     for c, o in mism:
         ctx.broken.append(Broken("correspondence", "Model/Adc.v vs implementation",
@@ -360,6 +373,26 @@ def run(ctx: Ctx):
                                  dict(case=c, observed=o)))
     if ctx.broken and not new_violations(ctx):
         search(ctx)
+
+
+def order_violations(ctx: Ctx):
+    """Reporting order only: one representative per recorded finding (open or fixed) first, so that on a tree
+    where several repaired defects are back each of them gets its own replay file."""
+    try:
+        ents = [dict(e, status="open") for e in
+                json.loads((core.VERIF / "known_findings.json").read_text()).get("findings", [])
+                if e.get("property") == ctx.prop]
+    except (OSError, ValueError):
+        return
+    first, rest, seen = [], [], set()
+    for v in ctx.violations:
+        hit = next((e["id"] for e in ents if core.finding_matches(e, v)), None)
+        if hit is not None and hit not in seen:
+            seen.add(hit)
+            first.append(v)
+        else:
+            rest.append(v)
+    ctx.violations[:] = first + rest
 
 
 def new_violations(ctx: Ctx):
@@ -381,6 +414,7 @@ def search(ctx: Ctx):
     mism, viol, pairs = correspondence(ctx, cases, tag="s")
     for c, o in viol:
         ctx.violations.append(to_violation(c, o))
+    order_violations(ctx)
     ctx.cov["search_frames"] = len(pairs)
 
 
@@ -408,18 +442,22 @@ def replay(ctx: Ctx, rp: dict) -> int:
 
 META = dict(
     level_text=(
-        "Coq theorems over a bit-exact Flocq binary64 model of the three converters and over the dtype chain "
-        "regenerated from get_dtype on every run (wide-enough type for all 64 accepted resolutions; refusal outside). "
-        "The model is tied to the code by evaluating it inside Coq against apply_simple_adc / apply_sar_adc / the noisy "
-        "variant with zero noise and the detector-level models on frames of code-transition voltages +-1 ulp; the "
-        "implementation's codes are judged inside Coq against the property's specification (range, saturation at "
-        "both ends, monotonicity, type width). Where the faithful model refutes the full statement (full scale one "
-        "code short, 54..64 bits) the witness is proved and the defect is a known finding."),
+        "Coq theorems over a bit-exact Flocq binary64 model of the three converters as repaired (simple: double "
+        "precision, clamp to the largest double not above full scale, exact saturation at/above the maximum; SAR: "
+        "integer accumulator, double-precision remainder) and over the dtype chain and the detector-level wrappers "
+        "regenerated from the source on every run. Proved for EVERY resolution up to 64 bits, every finite range and "
+        "every non-NaN voltage incl. infinities: codes in 0..2^bits-1, never an undefined/wrapping cast (finite span), "
+        "monotone, 0 at/below vmin, 2^bits-1 exactly at/above vmax; SAR range/definedness/monotonicity and zero-noise "
+        "equality; whole frames of the model satisfy the specification used to judge the implementation. The model is "
+        "tied to the code by evaluating it inside Coq against apply_simple_adc / apply_sar_adc / the noisy variant "
+        "with zero noise and the detector-level models on float64, float32 and float16 frames of code-transition "
+        "voltages +-1 ulp; the implementation's codes are judged inside Coq against the specification."),
     level_note=(
         "Trusted: Coq kernel + vm_compute; Flocq's IEEE-754 formalisation (its theorems use the real-number axioms and "
         "classic); translator/c16.py; the correspondence harness; numpy float64 = IEEE-754 binary64 round-to-nearest-even, "
-        "np.clip/np.trunc semantics, correctly rounded int->float conversion. Assumes finite vmin < vmax, no intermediate "
-        "overflow ((vmax-vmin)*2^bits < 2^1023), no NaN voltages."),
-    technique="Coq proof over Flocq binary64 model + regenerated dtype table + in-Coq correspondence/spec evaluation",
+        "np.clip/np.trunc/np.minimum/np.nextafter semantics, correctly rounded int->float conversion, exact "
+        "float32/float16->float64 conversion. Assumes finite vmin < vmax with a finite span, no NaN voltages (their "
+        "effect is stated: undefined cast)."),
+    technique="Coq proof over Flocq binary64 model + regenerated dtype table and wrapper table + in-Coq correspondence/spec evaluation",
     design_ref="DESIGN.md section 6, C16",
 )
